@@ -338,7 +338,8 @@ STREAMLIB = ["cbor/streaming.c", "cbor/internal/loaders.c"]
 REC_STUBS = ALLOC_STUBS + ["stubs/recorder.c", "stubs/ldexp_model.c"]
 
 P(name="stream_decode_contract",
-  props={"C08": FUNC + FRAME, "C01": SAFETY, "C13": [], "C09": FUNC, "C14": FUNC, "C02": FUNC, "C05": FUNC},
+  # (C10: the encoder -> decoder inverse lemmas use this contract in place of the decoder: it must hold of the real one)
+  props={"C08": FUNC + FRAME, "C01": SAFETY, "C13": [], "C09": FUNC, "C14": FUNC, "C02": FUNC, "C05": FUNC, "C10": FUNC, "C15": FUNC},
   lib=STREAMLIB, stubs=REC_STUBS, contracts=["contracts/streaming.h"], defines=["VERIF_STREAM_CONTRACT"],
   harness="harness/stream_decode.c", enforce="cbor_stream_decode", replay="stream_decode",
   must_exist=[r"cbor_stream_decode\.postcondition\.14", r"rec_uint8\.assigns\.1"], min_covers=10, cost=30)
@@ -1079,3 +1080,48 @@ for _p in PROOFS:
         for _pid in list(_p["props"]):
             if _pid not in _HEAVY_ONLY[_p["name"]]:
                 del _p["props"][_pid]
+
+# ------------------------------------------------------------------------------------------------
+# Dependency closure.  A proof that uses the contract of f at a call site (replace mode) decides a property only if that
+# contract is true of the real f.  So for every property P, every proof that ENFORCES a contract used by one of P's proofs
+# also runs in P's check, and its postconditions / loop obligations / frame count for P (for C01 its safety obligations as
+# well).  Assumed variants (f/variant) and induction-hypothesis twins (f__child) are not contracts of real functions: they
+# are listed in evidence under contracts_assumed_not_enforced instead.  (Found with the seed C10d: the encoder->decoder
+# inverse lemmas of C10 use the decoder's contract, whose enforcing proof was attributed to C08/C09/C14 only.)
+_DEP = ["postcondition", "loop", "assigns", "frees"]
+_ALL_TAGS = ["C%02d" % i for i in range(1, 21)]
+
+
+def _close_dependencies():
+    live = [p for p in PROOFS if p.get("tier", "quick") != "experimental"]
+    enforcers = {}
+    for p in live:
+        fs = set(p.get("also_verified", []))
+        if p.get("enforce"):
+            fs.add(p["enforce"])
+        for f in fs:
+            enforcers.setdefault(f, []).append(p)
+    for pid in _ALL_TAGS:
+        changed = True
+        while changed:
+            changed = False
+            for p in live:
+                if pid not in p["props"]:
+                    continue
+                for r in p.get("replace", []):
+                    if "/" in r or r.endswith("__child"):
+                        continue
+                    for q in enforcers.get(r, []):
+                        if pid in q["props"] or q["name"] in _HEAVY_ONLY:
+                            continue
+                        # a thorough-tier enforcer stays in the thorough tier
+                        q["props"][pid] = _DEP + (["safety", "cbor_assert", "precondition", "dfcc_internal"] if pid == "C01" else [])
+                        if not q.get("enforce"):
+                            # lemma-style enforcer: its specification is in tagged harness assertions
+                            q.setdefault("tag_alias", {})
+                            q["tag_alias"] = dict(q["tag_alias"], **{pid: _ALL_TAGS})
+                        q.setdefault("dependency_of", []).append(pid)
+                        changed = True
+
+
+_close_dependencies()
